@@ -162,11 +162,34 @@ def plan_params(rng, F, overlap=False):
     return st, w, sh
 
 
+_MK = [0]
+
+
 def make_dhtv(stft, st, w, sh, mi, si, metric, algo):
+    """every second construction leaves the options that sit at their documented default ('cos', 'greedy') to the default"""
     from pb_bss.permutation_alignment import DHTVPermutationAlignment
-    return DHTVPermutationAlignment(stft_size=stft, segment_start=st, segment_width=w, segment_shift=sh,
-                                    main_iterations=mi, sub_iterations=si, similarity_metric=metric,
-                                    algorithm=algo)
+    kw = dict(stft_size=stft, segment_start=st, segment_width=w, segment_shift=sh, main_iterations=mi, sub_iterations=si,
+              similarity_metric=metric, algorithm=algo)
+    import zlib
+    if zlib.crc32(repr((stft, st, w, sh, mi, si)).encode()) % 2 == 0:          # decided by the configuration, not by call order
+        if metric == 'cos':
+            del kw['similarity_metric']
+        if algo == 'greedy':
+            del kw['algorithm']
+    return DHTVPermutationAlignment(**kw)
+
+
+def make_greedy(metric, algo):
+    """GreedyPermutationAlignment; documented defaults ('euclidean', 'optimal') left out every second time"""
+    from pb_bss.permutation_alignment import GreedyPermutationAlignment
+    kw = dict(similarity_metric=metric, algorithm=algo)
+    _MK[0] += 1
+    if (_MK[0] // 2) % 2 == 0:            # pairs of constructions (history call + call under test) share the decision
+        if metric == 'euclidean':
+            del kw['similarity_metric']
+        if algo == 'optimal':
+            del kw['algorithm']
+    return GreedyPermutationAlignment(**kw)
 
 
 def stft_of(F):
